@@ -57,13 +57,20 @@ pub fn check_c03(text: &str, out: &mut Vec<Failure>) -> bool {
                 let mut v = vec![];
                 all_semantic_errors(res.semantic_errors(), &mut v);
                 let _ = res.semantic_errors().len();
-                res.symbol_table().verif_scope_depth()
+                (res.symbol_table().verif_scope_depth(), v.len())
             });
             match r {
                 Err(p) => out.push(Failure::new(format!("C03:results-unreadable:{}", panic_key(&p)), detail(p.msg.clone()))),
-                Ok(depth) => {
+                Ok((depth, n_diag)) => {
                     if depth != 1 {
                         out.push(Failure::new("C03:scope-left-open", detail(format!("scope depth {depth} after analysis"))));
+                    }
+                    // memory growth: a diagnostic refers to a node, and a program has at most one
+                    // node per byte; far more diagnostics than that means that parts of the program
+                    // are analysed over and over (the bound is generous: the double library
+                    // include yields 32 diagnostics from one statement)
+                    if n_diag > 64 + 8 * text.len() {
+                        out.push(Failure::new("C03:diagnostics-grow-faster-than-the-program", detail(format!("{n_diag} semantic diagnostics for {} bytes of source", text.len()))));
                     }
                 }
             }
@@ -80,7 +87,7 @@ pub fn replay_c03(v: &serde_json::Value) -> Result<Vec<Failure>, String> {
 }
 
 pub fn run_c03(ctx: &RunCtx) {
-    ctx.set_rule("(a) generated programs of the supported subset with 0-3 injected semantic faults (semgen); (b) programs of the wider grammar: every statement and expression form the parser accepts, all operators in all operand positions, extreme literals, designators that are expressions/calls/negative/huge, shadowed built-ins; (c) mutated snippets and token soup filtered by the implementation itself to those with zero syntax diagnostics (yield reported). oracle: analysis returns under catch_unwind, program/symbol table/diagnostics are readable, scope depth is 1. non-trivial = zero syntax diagnostics and >=1 statement; distinct by text");
+    ctx.set_rule("(a) generated programs of the supported subset with 0-3 injected semantic faults (semgen); (b) programs of the wider grammar: every statement and expression form the parser accepts, all operators in all operand positions, extreme literals, designators that are expressions/calls/negative/huge, shadowed built-ins; (c) mutated snippets and token soup filtered by the implementation itself to those with zero syntax diagnostics (yield reported). oracle: analysis returns under catch_unwind, program/symbol table/diagnostics are readable, scope depth is 1, and the number of semantic diagnostics stays below 64 + 8 per source byte (repeated analysis of nested parts shows up as diagnostic blow-up). non-trivial = zero syntax diagnostics and >=1 statement; distinct by text");
     ctx.assume("'syntax-error-free' is decided by the implementation's own parse_check_lex: have_parse and no diagnostics");
     // (b) wider grammar, syntactic generator with switches on (so that programs parse cleanly)
     let n = ctx.pick(300_000u64, 10_000_000u64);
@@ -170,6 +177,19 @@ fn extreme_templates() -> Vec<String> {
         "if (true) { include \"missing_too.inc\"; }",
         "int between = 1;",
     ];
+    // nesting with an erroneous leaf: parentheses, unary minus, casts, index operators, blocks
+    for depth in [1usize, 2, 4, 8, 12, 16] {
+        v.push(format!("{}nope{};", "(".repeat(depth), ")".repeat(depth)));
+        v.push(format!("int x = {}nope{};", "(".repeat(depth), ")".repeat(depth)));
+        v.push(format!("qubit q; U({}nope{}, 0, 0) q;", "(".repeat(depth), ")".repeat(depth)));
+        v.push(format!("{}nope;", "-".repeat(depth)));
+        v.push(format!("{}nope{};", "float(".repeat(depth), ")".repeat(depth)));
+        v.push(format!("nope{};", "[0]".repeat(depth)));
+        v.push(format!("{}nope;{}", "if (true) { ".repeat(depth), " }".repeat(depth)));
+        v.push(format!("{}nope;{}", "while (false) { ".repeat(depth), " }".repeat(depth)));
+        v.push(format!("{}nope;{}", "{ ".repeat(depth), " }".repeat(depth)));
+        v.push(format!("(nope + {}nope{});", "(1 * ".repeat(depth), ")".repeat(depth)));
+    }
     for a in inc {
         v.push(format!("{a}\nqubit q;"));
         for b in inc {
